@@ -47,6 +47,115 @@ MARGIN = Fr(1, 64)        # distance kept from the +-pi thresholds (units of pi)
 TOL32 = 5e-4
 
 
+# pinned signatures of the anchored functions: (name, kind, default) per parameter, in ORDER.  The harness calls every
+# function in positional form as well as in keyword form; a re-ordered signature is a broken tie by itself.
+PINNED_SIGNATURES = {
+    "imaging_utils._wrap_to_pi": [("x", "pk", "<none>")],
+    "imaging_utils._find_wrap": [("a", "pk", "<none>"), ("b", "pk", "<none>")],
+    "imaging_utils._pixel_reliability": [("phi", "pk", "<none>"), ("mask", "pk", "None")],
+    "imaging_utils._build_edges": [("phi", "pk", "<none>"), ("reliability", "pk", "<none>"), ("mask", "pk", "None"),
+                                   ("wrap_around", "pk", "True")],
+    "imaging_utils.UnionFindPhase.__init__": [("self", "pk", "<none>"), ("n", "pk", "<none>")],
+    "imaging_utils.UnionFindPhase.find_root_and_offset": [("self", "pk", "<none>"), ("x", "pk", "<none>")],
+    "imaging_utils.UnionFindPhase.union": [("self", "pk", "<none>"), ("x", "pk", "<none>"), ("y", "pk", "<none>"),
+                                           ("inc_xy", "pk", "<none>")],
+    "imaging_utils._final_offsets": [("uf", "pk", "<none>")],
+    "imaging_utils._unwrap_phase_2d_torch_reliability_sorting": [("phi", "pk", "<none>"), ("mask", "pk", "None"),
+                                                                 ("wrap_around", "pk", "True")],
+    "imaging_utils.unwrap_phase_2d_torch": [("phi_wrapped", "pk", "<none>"), ("method", "pk", "'reliability-sorting'"),
+                                            ("mask", "pk", "None"), ("wrap_around", "pk", "True"),
+                                            ("regularization_lambda", "pk", "None")],
+    "direct_ptycho_utils.unwrap_bf_overlap_phase_torch": [("complex_data_bf", "pk", "<none>"), ("mask_bf", "pk", "<none>"),
+                                                          ("bf_mask", "pk", "<none>"), ("method", "kw", "'reliability-sorting'"),
+                                                          ("two_pass", "kw", "True"), ("unwrap_kwargs", "varkw", "<none>")],
+}
+
+
+def check_signatures(ctx):
+    import inspect
+    from quantem.core.utils import imaging_utils
+    from quantem.diffractive_imaging import direct_ptycho_utils
+    mods = {"imaging_utils": imaging_utils, "direct_ptycho_utils": direct_ptycho_utils}
+    kinds = {inspect.Parameter.POSITIONAL_OR_KEYWORD: "pk", inspect.Parameter.KEYWORD_ONLY: "kw",
+             inspect.Parameter.VAR_KEYWORD: "varkw", inspect.Parameter.VAR_POSITIONAL: "varpos",
+             inspect.Parameter.POSITIONAL_ONLY: "pos"}
+    for name, want in PINNED_SIGNATURES.items():
+        obj = mods[name.split(".")[0]]
+        try:
+            for part in name.split(".")[1:]:
+                obj = getattr(obj, part)
+            got = [(p.name, kinds[p.kind], "<none>" if p.default is inspect.Parameter.empty else repr(p.default))
+                   for p in inspect.signature(obj).parameters.values()]
+        except Exception as e:  # noqa
+            got = f"<{type(e).__name__}>"
+        ctx.count()
+        ctx.dist["signatures:checked"] += 1
+        if got != [tuple(x) for x in want]:
+            disagree(ctx, "signature", {"stream": "signature", "function": name}, [list(x) for x in want],
+                     [list(x) for x in got] if isinstance(got, list) else got,
+                     note="parameter order / kind / default of an anchored function differs from the pinned signature")
+
+
+LAYOUTS = ["C", "C", "T", "F", "colstep", "rowstep", "permute3"]
+MASK_DTYPES = ["bool", "bool", "uint8", "float32", "int64"]
+
+
+def call_classes(case, helpers=False):
+    """memory layout of phi / mask, mask dtype and call form (keyword / positional) of a case: drawn once,
+    deterministically from the case content, and stored in the case (so that a replay repeats them)"""
+    if "layout" in case:
+        return case
+    import json
+    import zlib
+    from qv.prng import Rng
+    key = json.dumps([case.get(k) for k in ("stream", "H", "W", "wrap", "dtype", "mode", "kind", "mkind")] + [list(case["qn"][:64])])
+    r = Rng(zlib.crc32(key.encode()))
+    case["layout"] = r.choice(LAYOUTS)
+    case["mask_layout"] = r.choice(LAYOUTS)
+    case["mask_dtype"] = "bool" if helpers else r.choice(MASK_DTYPES)   # the private helpers index with the mask: bool only
+    case["call"] = r.choice(["keyword", "positional"])
+    return case
+
+
+def lay(t, layout, fill=7):
+    """the same 2-D values in another memory layout: C-contiguous, transposed view, Fortran-ordered numpy array via
+    from_numpy, step-sliced views along either axis, a permuted slice of a 3-D tensor"""
+    import numpy as np
+    import torch
+    if t is None or layout == "C":
+        return t
+    H, W = t.shape
+    if layout == "T":
+        v = t.T.contiguous().T
+    elif layout == "F":
+        v = torch.from_numpy(np.asfortranarray(t.numpy()))
+    elif layout == "colstep":
+        big = torch.full((H, 2 * W), fill).to(t.dtype)
+        big[:, ::2] = t
+        v = big[:, ::2]
+    elif layout == "rowstep":
+        big = torch.full((2 * H, W), fill).to(t.dtype)
+        big[::2] = t
+        v = big[::2]
+    else:   # permute3
+        big = torch.full((W, 2, H), fill).to(t.dtype)
+        big[:, 1, :] = t.T
+        v = big.permute(2, 1, 0)[:, 1, :]
+    assert v.shape == t.shape and bool((v == t).all())
+    return v
+
+
+def mask_tensor(maskl, H, W, case):
+    import torch
+    if maskl is None:
+        return None
+    m = torch.tensor(maskl, dtype=torch.bool).reshape(H, W)
+    md = case.get("mask_dtype", "bool")
+    if md != "bool":
+        m = m.to({"uint8": torch.uint8, "float32": torch.float32, "int64": torch.int64}[md])
+    return lay(m, case.get("mask_layout", "C"), fill=1)
+
+
 def pred_fail(ctx, key, what, case, observed=None, required=None):
     """forward at most 3 failures per key (so that every failing clause keeps a replayable input)"""
     ctx.dist[f"predicate-failures:{key}"] += 1
@@ -404,7 +513,8 @@ def field_tensor(case):
         n = [0] * len(q)
     dt = DTYPES[case["dtype"]]()
     phi = torch.tensor([float(x) * math.pi for x in w], dtype=torch.float64).reshape(H, W).to(dt)
-    mask = None if case["mask"] is None else torch.tensor(case["mask"], dtype=torch.bool).reshape(H, W)
+    phi = lay(phi, case.get("layout", "C"))
+    mask = mask_tensor(case["mask"], H, W, case)
     return q, w, n, phi, mask
 
 
@@ -468,17 +578,25 @@ def eval_unwrap_case(ctx, drv, case, report_case=None):
     iu = _iu()
     H, W, wrap = case["H"], case["W"], case["wrap"]
     N = H * W
+    call_classes(case)
     q, w, n, phi, mask = field_tensor(case)
     maskl = case["mask"]
     pairs = used_pairs(H, W, maskl, wrap)
     lab, ncomp = components(N, pairs, maskl)
     smooth = case["mode"] != "raw"
+    ctx.dist[f"call:form:{case['call']}"] += 1
+    ctx.dist[f"call:phi-layout:{case['layout']}"] += 1
+    if maskl is not None:
+        ctx.dist[f"call:mask-layout:{case['mask_layout']}"] += 1
+        ctx.dist[f"call:mask-dtype:{case['mask_dtype']}"] += 1
     # ---- the real code
     rec = Recorder(iu)
     try:
         with rec:
-            out_t = iu.unwrap_phase_2d_torch(phi.clone(), method="reliability-sorting",
-                                             mask=None if mask is None else mask.clone(), wrap_around=wrap)
+            if case["call"] == "positional":
+                out_t = iu.unwrap_phase_2d_torch(phi, "reliability-sorting", mask, wrap)
+            else:
+                out_t = iu.unwrap_phase_2d_torch(phi, method="reliability-sorting", mask=mask, wrap_around=wrap)
         out = [float(v) for v in out_t.detach().cpu().double().flatten().tolist()]
         err = None
     except Exception as e:  # noqa
@@ -496,7 +614,8 @@ def eval_unwrap_case(ctx, drv, case, report_case=None):
     ctx.dist[f"unwrap:really-wraps:{wraps}"] += 1
     if wraps:
         ctx.mark(("unwrap", case["kind"], case["mkind"], wrap, case["dtype"], H, W, min(ncomp, 4), min(nrange, 6)))
-    small_case = report_case or {k: case[k] for k in ("stream", "H", "W", "wrap", "mask", "mode", "dtype", "qn", "kind", "mkind", "outside", "c") if k in case}
+    small_case = report_case or {k: case[k] for k in ("stream", "H", "W", "wrap", "mask", "mode", "dtype", "qn", "kind", "mkind", "outside", "c",
+                                                      "layout", "mask_layout", "mask_dtype", "call") if k in case}
     if err is not None:
         pred_fail(ctx, "unwrap-raises", f"unwrap_phase_2d_torch raised {err}", small_case, observed=err, required="a result")
         return
@@ -562,15 +681,21 @@ def eval_edges_case(ctx, drv, case):
     H, W, wrap = case["H"], case["W"], case["wrap"]
     w = [Fr(v, DEN) for v in case["qn"]]
     dt = torch.float32 if case["dtype"] == "float32" else torch.float64
-    phi = torch.tensor([float(x) * math.pi for x in w], dtype=torch.float64).reshape(H, W).to(dt)
-    mask = None if case["mask"] is None else torch.tensor(case["mask"], dtype=torch.bool).reshape(H, W)
-    rel = torch.tensor(case["rel"], dtype=dt).reshape(H, W)
+    call_classes(case, helpers=True)
+    phi = lay(torch.tensor([float(x) * math.pi for x in w], dtype=torch.float64).reshape(H, W).to(dt), case["layout"])
+    mask = mask_tensor(case["mask"], H, W, case)
+    rel = lay(torch.tensor(case["rel"], dtype=dt).reshape(H, W), case["mask_layout"])
+    ctx.dist[f"call:form:{case['call']}"] += 1
+    ctx.dist[f"call:phi-layout:{case['layout']}"] += 1
     ctx.count()
     ctx.dist[f"edges:wrap_around:{wrap}"] += 1
     ctx.dist[f"edges:mask:{'none' if mask is None else 'given'}"] += 1
     ctx.dist[f"edges:shape:{'degenerate' if min(H, W) <= 2 else 'regular'}"] += 1
     try:
-        i1, i2, inc = iu._build_edges(phi, rel, mask, wrap_around=wrap)
+        if case["call"] == "positional":
+            i1, i2, inc = iu._build_edges(phi, rel, mask, wrap)
+        else:
+            i1, i2, inc = iu._build_edges(phi=phi, reliability=rel, mask=mask, wrap_around=wrap)
         impl = sorted(zip(i1.tolist(), i2.tolist(), inc.tolist()))
         impl = [list(map(int, e)) for e in impl]
     except Exception as e:  # noqa
@@ -690,6 +815,48 @@ def gen_medium_case(rng):
             "dtype": rng.choice(["float32", "float64"]), "qn": qn, "kind": kind, "mkind": mkind, "outside": "smooth"}
 
 
+def gen_border_case(rng):
+    """wrap_around=False on a NON-periodic smooth field whose wrapped version is continuous across the border: a ramp
+    climbing whole turns across the width (and/or height) plus a bump that is flat near the edges.  Periodic seam
+    pairs would look perfectly reliable here but join pixels that are whole turns apart."""
+    import numpy as np
+    H, W = rng.randint(6, 22), rng.randint(6, 22)
+    tx = rng.randint(1, max(1, min(3, (W - 1) // 3)))
+    ty = rng.choice([0, 0, 1, min(2, max(1, (H - 1) // 3))])
+    if rng.chance(0.3):
+        tx, ty = ty, tx
+        if tx == 0 and ty == 0:
+            tx = 1
+    yy, xx = np.mgrid[:H, :W].astype(float)
+    sx = 1 if rng.chance(0.5) else -1
+    sy = 1 if rng.chance(0.5) else -1
+    ramp = sx * 2.0 * tx * xx / W + sy * 2.0 * ty * yy / H          # units of pi: 2 per turn
+    env = np.sin(math.pi * (xx + 0.5) / W) ** 2 * np.sin(math.pi * (yy + 0.5) / H) ** 2
+    bump = env * gen_float_field(rng, H, W, rng.choice(["gauss", "bandlimited", "quadratic"]))
+    bump = bump / max(1e-9, float(np.abs(bump).max()))
+    mkind = rng.weighted([("none", 4), ("border", 2), ("annulus", 1), ("blobs", 1)])
+    mask = gen_mask(rng, H, W, mkind)
+    pairs = used_pairs(H, W, mask, False)
+    amp = rng.uniform(0.5, 4.0)
+    lim = (1 - MARGIN) * DEN
+    qn = None
+    for _ in range(40):
+        f = ramp + amp * bump
+        cand = [int(round(v * DEN)) for v in f.flatten()]
+        if all(abs(cand[a] - cand[b]) <= lim for a, b in pairs):
+            qn = cand
+            break
+        amp *= 0.8
+    if qn is None:
+        qn = [int(round(v * DEN)) for v in ramp.flatten()]
+        if not all(abs(qn[a] - qn[b]) <= lim for a, b in pairs):
+            qn = [0] * (H * W)
+    off = rng.randint(-2 * DEN, 2 * DEN)
+    qn = [v + off for v in qn]
+    return {"stream": "unwrap", "H": H, "W": W, "wrap": False, "mask": mask, "mode": rng.choice(["wrapped", "wrapped", "zero2pi"]),
+            "dtype": rng.choice(["float32", "float64"]), "qn": qn, "kind": "border-continuous", "mkind": mkind, "outside": "smooth"}
+
+
 def gen_seam_case(rng):
     """periodic grid whose mask component is held together ONLY by the seam of exactly one axis: a band that spans
     the periodic axis completely, cut once across; the ramp runs through the seam.  Non-square sizes, the other
@@ -776,8 +943,11 @@ def eval_order_case(ctx, drv, case):
     N = H * W
     w = [Fr(v, ODEN) for v in case["qn"]]
     dt = DTYPES[case["dtype"]]()
-    phi = torch.tensor([float(x) * math.pi for x in w], dtype=torch.float64).reshape(H, W).to(dt)
-    mask = None if case["mask"] is None else torch.tensor(case["mask"], dtype=torch.bool).reshape(H, W)
+    call_classes(case, helpers=True)
+    phi = lay(torch.tensor([float(x) * math.pi for x in w], dtype=torch.float64).reshape(H, W).to(dt), case["layout"])
+    mask = mask_tensor(case["mask"], H, W, case)
+    ctx.dist[f"call:form:{case['call']}"] += 1
+    ctx.dist[f"call:phi-layout:{case['layout']}"] += 1
     ctx.count()
     ctx.dist[f"order:dtype:{case['dtype']}"] += 1
     ctx.dist[f"order:wide-values:{case['wide']}"] += 1
@@ -785,11 +955,17 @@ def eval_order_case(ctx, drv, case):
     ctx.dist[f"order:wrap_around:{wrap}"] += 1
     rec = Recorder(iu)
     try:
-        R_impl = iu._pixel_reliability(phi.clone(), None if mask is None else mask.clone())
+        if case["call"] == "positional":
+            R_impl = iu._pixel_reliability(phi, mask)
+        else:
+            R_impl = iu._pixel_reliability(phi=phi, mask=mask)
         R_impl = [float(v) for v in R_impl.double().flatten().tolist()]
         with rec:
-            iu.unwrap_phase_2d_torch(phi.clone(), method="reliability-sorting", mask=None if mask is None else mask.clone(),
-                                     wrap_around=wrap)
+            # the anchored worker itself, in the other call form than the dispatcher gets in the end-to-end stream
+            if case["call"] == "positional":
+                iu._unwrap_phase_2d_torch_reliability_sorting(phi, mask, wrap)
+            else:
+                iu._unwrap_phase_2d_torch_reliability_sorting(phi=phi, mask=mask, wrap_around=wrap)
     except Exception as e:  # noqa
         disagree(ctx, "reliability", case, "a result", err_name(e))
         return
@@ -1077,17 +1253,31 @@ def eval_bf_case(ctx, drv, case, tensors=None, collect=None):
     cdt = torch.complex64 if case["cdtype"] == "complex64" else torch.complex128
     ang = torch.tensor([float(w[i]) * math.pi for i in pos], dtype=torch.float64)
     data = torch.polar(torch.ones_like(ang), ang).to(cdt)
-    bf_t = torch.tensor(bf, dtype=torch.bool).reshape(H, W)
+    call_classes(case, helpers=True)
+    bf_t = lay(torch.tensor(bf, dtype=torch.bool).reshape(H, W), case["mask_layout"], fill=1)
     mask_bf = torch.tensor([bool(mgrid[i]) for i in pos], dtype=torch.bool)
     if tensors is not None:
         data, mask_bf = tensors
+    elif case["layout"] != "C":        # step-sliced 1-D views of the per-pixel inputs
+        big = torch.zeros(2 * len(pos), dtype=data.dtype)
+        big[::2] = data
+        data = big[::2]
+        bigm = torch.ones(2 * len(pos), dtype=torch.bool)
+        bigm[::2] = mask_bf
+        mask_bf = bigm[::2]
+    ctx.dist[f"call:form:bf:{case['call']}"] += 1
+    ctx.dist[f"call:bf_mask-layout:{case['mask_layout']}"] += 1
     kwargs = {} if case["wrap"] is None else {"wrap_around": case["wrap"]}
     wrap_eff = case["wrap"] is not False
     rec = Recorder(iu)
     try:
         with rec:
-            out_t = dpu.unwrap_bf_overlap_phase_torch(data, mask_bf, bf_t, method="reliability-sorting",
-                                                      two_pass=case["two_pass"], **kwargs)
+            if case["call"] == "positional":
+                out_t = dpu.unwrap_bf_overlap_phase_torch(data, mask_bf, bf_t, method="reliability-sorting",
+                                                          two_pass=case["two_pass"], **kwargs)
+            else:   # as the caller in direct_ptychography.py writes it
+                out_t = dpu.unwrap_bf_overlap_phase_torch(complex_data_bf=data, mask_bf=mask_bf, bf_mask=bf_t,
+                                                          method="reliability-sorting", two_pass=case["two_pass"], **kwargs)
         out = [float(v) for v in out_t.detach().cpu().double().tolist()]
         err = None
     except Exception as e:  # noqa
@@ -1167,6 +1357,7 @@ def run(ctx):
             pass
         except Exception as e:  # noqa
             disagree(ctx, "dispatch", {"method": "no-such-method"}, "ValueError", err_name(e))
+        check_signatures(ctx)
         n_unw = ctx.n(600, 12000)
         n_edges = ctx.n(200, 4000)
         n_uf = ctx.n(400, 8000)
@@ -1186,6 +1377,8 @@ def run(ctx):
             eval_unwrap_case(ctx, drv, gen_seam_case(ctx.rng.fork(7_000_000 + s)))
         for s in range(ctx.n(4, 40)):
             eval_unwrap_case(ctx, drv, gen_medium_case(ctx.rng.fork(8_000_000 + s)))
+        for s in range(ctx.n(80, 1500)):
+            eval_unwrap_case(ctx, drv, gen_border_case(ctx.rng.fork(11_000_000 + s)))
         for s in range(ctx.n(150, 3000)):
             eval_order_case(ctx, drv, gen_order_case(ctx.rng.fork(9_000_000 + s)))
         for s in range(ctx.n(40, 600)):
